@@ -229,6 +229,45 @@ def fourierFilterTorchE (P : Nat) (name : String) : Except String (List R) :=
     | some n => .ok (fourierFilterTorch n P)
     | Option.none => .error "ValueError"                  -- "Unknown filter"
 
+/-! ### scikit-image's `n` array and size check, literally
+
+`_get_fourier_filter` builds `n` with *float* bounds (`size / 2`) and `dtype=int`:
+`np.arange(1, size/2 + 1, 2, dtype=int)`, `np.arange(size/2 - 1, 0, -2, dtype=int)`.  NumPy takes
+the length `ceil((stop - start)/step)` and the values `v0 + i*(v1 - v0)` with `v0 = int(start)`,
+`v1 = int(start + step)` (truncation).  For even sizes this is the port's integer `n`; for odd
+sizes the assignment `f[1::2] = ...` fails to broadcast (ValueError) unless `n` has one element. -/
+
+def nListSk (P : Nat) : List Int :=
+  let len1 := (P + 3) / 4                        -- ceil((size/2 + 1 - 1) / 2)
+  let len2 := (P + 1) / 4                        -- max(0, ceil((size/2 - 1) / 2))
+  let v0 : Int := Int.tdiv ((P : Int) - 2) 2     -- int(size/2 - 1)
+  let v1 : Int := Int.tdiv ((P : Int) - 6) 2     -- int(size/2 - 1 - 2)
+  ((List.range len1).map fun (i : Nat) => 2 * (i : Int) + 1)
+    ++ ((List.range len2).map fun (i : Nat) => v0 + (i : Int) * (v1 - v0))
+
+/-- `f = zeros(size); f[0] = 0.25; f[1::2] = -1 / (pi * n) ** 2` with NumPy broadcasting of a
+one-element `n` -/
+def rampSpatialSk (P : Nat) (ns : List Int) : List R :=
+  (List.range P).map fun j =>
+    if j = 0 then Num.ofRat (1 / 4)
+    else if j % 2 = 1 then
+      let n : R := Num.ofInt (if ns.length = 1 then ns.getD 0 1 else ns.getD (j / 2) 1)
+      Neg.neg (Num.one / ((Num.pi * n) * (Num.pi * n)))
+    else Num.zero
+
+/-- skimage `_get_fourier_filter(size, name)` with its implicit error: the broadcast failure of
+`f[1::2] = ...` when `len(n)` is neither `len(f[1::2]) = size // 2` nor 1.  An unknown name
+falls through every `elif` and returns the ramp. -/
+def fourierFilterSkE (P : Nat) (name : String) : Except String (List R) :=
+  let ns := nListSk P
+  if ns.length ≠ P / 2 ∧ ns.length ≠ 1 then .error "ValueError"
+  else
+    let ramp : List R := (Dft.dft ((rampSpatialSk P ns : List R).map Cx.ofReal)).map fun z => Num.two * z.re
+    let nm := (parseFilter name).getD .ramp
+    match nm with
+    | .none => .ok (List.replicate P Num.one)
+    | _ => .ok ((List.range P).zipWith (fun k rk => rk * windowSk nm P k) ramp)
+
 /-! ## filtered back-projection -/
 
 /-- `max(64, 2 ** ceil(log2(2 * N)))` -/
